@@ -19,6 +19,7 @@ type Schema struct {
 	ReferenceFormatter func(ref ast.RefType) string
 
 	foreignObjects     *orderedmap.Map[string, ast.Object]
+	definitionOwners   map[string]string
 	referenceResolver  func(ref ast.RefType) (ast.Object, bool)
 	isForeignReference func(ref ast.RefType) bool
 }
@@ -56,6 +57,12 @@ func (jenny Schema) toJSON(input any) ([]byte, error) {
 
 func (jenny Schema) GenerateSchema(context languages.Context, schema *ast.Schema) Definition {
 	jenny.foreignObjects = orderedmap.New[string, ast.Object]()
+
+	// the names of the schema's own objects are never given to foreign objects.
+	jenny.definitionOwners = make(map[string]string)
+	schema.Objects.Iterate(func(_ string, object ast.Object) {
+		jenny.definitionOwners[object.Name] = ast.RefType{ReferredPkg: schema.Package, ReferredType: object.Name}.String()
+	})
 
 	jenny.isForeignReference = func(ref ast.RefType) bool {
 		return ref.ReferredPkg != schema.Package
@@ -95,7 +102,7 @@ func (jenny Schema) GenerateSchema(context languages.Context, schema *ast.Schema
 			}
 			inlinedForeignObjects[ref] = struct{}{}
 
-			definitions.Set(foreignObject.Name, jenny.objectToDefinition(foreignObject))
+			definitions.Set(jenny.definitionName(foreignObject.SelfRef), jenny.objectToDefinition(foreignObject))
 		})
 	}
 
@@ -252,9 +259,31 @@ func (jenny Schema) formatRef(typeDef ast.Type) Definition {
 	}
 
 	// TODO: handle foreign refs
-	definition.Set("$ref", jenny.ReferenceFormatter(ref))
+	definition.Set("$ref", jenny.ReferenceFormatter(ast.RefType{
+		ReferredPkg:  ref.ReferredPkg,
+		ReferredType: jenny.definitionName(ref),
+	}))
 
 	return definition
+}
+
+// definitionName returns the name of the definition describing the referred
+// object: the name of the object, prefixed by its package if an object of
+// another package is already defined under that name.
+func (jenny Schema) definitionName(ref ast.RefType) string {
+	name := ref.ReferredType
+	for {
+		owner, taken := jenny.definitionOwners[name]
+		if !taken || owner == ref.String() {
+			break
+		}
+
+		name = tools.UpperCamelCase(ref.ReferredPkg) + name
+	}
+
+	jenny.definitionOwners[name] = ref.String()
+
+	return name
 }
 
 func (jenny Schema) defaultRefFormatter(ref ast.RefType) string {
